@@ -57,6 +57,10 @@ def instances(tier, seed):
             out.append(("core", dict(kind="toggle", callable="wrapped", tc=tc, states=states, body_raises=False)))
         for pos in ("above", "below"):
             out.append(("core", dict(kind="notypecheck", callable="wrapped", tc=tc, pos=pos)))
+    # the deprecated double-decorator spelling jaxtyped(typechecker(fn))
+    for tc in ("typeguard", "beartype"):
+        for states in itertools.product((0, 1), repeat=3):
+            out.append(("core", dict(kind="toggle", callable="oldstyle", tc=tc, states=list(states), body_raises=False)))
     # the switch toggled while a jaxtyped("context") block is open
     for where in ("top", "infunc"):
         for enter, leave in itertools.product((0, 1), repeat=2):
@@ -65,7 +69,7 @@ def instances(tier, seed):
 
 
 BOUNDS = dict(values="every string of length <=5 (thorough 6) over the alphabet %r through config.update (both switches) and through the JAXTYPING_DISABLE environment route; non-string values bool/int/None/float/bytes/list" % "".join(sorted(set(ALPHA))),
-              toggling="all 8 on/off assignments to (before decoration, between decoration and first call, between first and second call) x {function, method, dataclass, staticmethod} x {typeguard, beartype}; typing.no_type_check above / below; a functools.wraps wrapper with a misleading signature; non-binding calls with checking off; the switch toggled inside an open jaxtyped('context') block (top level / inside a decorated call, all 4 enter/leave assignments)",
+              toggling="all 8 on/off assignments to (before decoration, between decoration and first call, between first and second call) x {function, method, dataclass, staticmethod, old-style jaxtyped(typechecker(fn))} x {typeguard, beartype}; typing.no_type_check above / below; a functools.wraps wrapper with a misleading signature; non-binding calls with checking off; the switch toggled inside an open jaxtyped('context') block (top level / inside a decorated call, all 4 enter/leave assignments)",
               shapes="two array arguments + returned array, rank 0..2, sizes unbounded")
 STUBS = ["os.environ inside jaxtyping._config -> dict stub (mapping str -> str contract)", "SymStr"] + c01.STUBS
 ASSUMPTIONS = ["ASCII only: str.lower() on non-ASCII case mappings is outside the claim",
@@ -174,6 +178,10 @@ def build_callable(inst, ARR, plain=False):
         src = f"{dec}\ndef f(x: A, y: B) -> R:\n    return _body()\ncall = f\n"
     elif ck == "method":
         src = f"class K:\n{ind(dec)}\n    def f(self, x: A, y: B) -> R:\n        return _body()\ncall = K().f\n"
+    elif ck == "oldstyle":
+        g["warnings"] = __import__("warnings")
+        deco = "f = f" if plain else "with warnings.catch_warnings():\n    warnings.simplefilter('ignore')\n    f = jt.jaxtyped(tc(f))"
+        src = f"def f(x: A, y: B) -> R:\n    return _body()\n{deco}\ncall = f\n"
     elif ck == "wrapped":
         g["functools"] = __import__("functools")
         src = ("def inner(x: A, y: B, extra) -> R:\n    return _body()\n"
@@ -238,6 +246,8 @@ def scenario(inst, V):
             fnlib.HOLD["probe"] = lambda: (isinstance(pa, ZQ), isinstance(pb, ZQ))
             fnlib.HOLD["probe_result"] = None
             kindr, res = fnlib.call(fn, ["x", "y"], [x, y], "pos")
+            if inst["callable"] == "oldstyle" and kindr.startswith("EXC:") and kindr != "EXC:KeyError":
+                kindr = "TCE"   # the typechecker's own exception class (old-style spelling)
             fnlib.HOLD["probe"] = None
             ncalls = fnlib.HOLD["calls"] - n0
             plain = (kind == "notypecheck") or bool(st)
@@ -358,6 +368,9 @@ def scenario_ctxtoggle(inst, V):
 
 
 def _key(inst, label, vals, info):
+    if inst.get("callable") == "oldstyle" and label == "disabled-is-plain":
+        # one root cause for every shape / toggle assignment: see known_findings.json
+        return "old-style-double-decoration-ignores-the-disable-switch"
     return f"{label}|{sorted((k, repr(v)) for k, v in inst.items())!r}"
 
 
